@@ -226,9 +226,10 @@ def run_check(prop, args, wdir):
 
     # determinism self-test (small in quick, larger in thorough)
     st = selftest(binp, wdir, prop, seed, 12 if tier == "quick" else 40, [1, 4] if tier == "quick" else [1, 4, 16, 2])
-    if st["mismatches"] != 0:
+    if st["mismatches"] > 0:
         log("determinism self-test failed (exit 2): %s" % json.dumps(st))
         return 2
+    selftest_died = st["mismatches"] < 0  # a crash: the exploration below will find and classify it
 
     procs = []
     for w in range(workers):
@@ -332,7 +333,7 @@ def run_check(prop, args, wdir):
         "distinct_nontrivial": len(nontriv),
         "rule": meta.get("rule", "") + " One evaluation = one simulated run decided by (seed, run index). Distinct = distinct hash of the sequence of "
                 "(choice-point kind, number enabled, chosen action) over scheduler/fault choice points with >= 2 enabled actions; "
-                "non-trivial = at least one fault actually fired or >= 2 operations overlapped in the run.",
+                "non-trivial = at least one fault actually fired, or >= 2 operations overlapped, or the property-specific condition named above was reached in the run.",
         "samples": samples,
         "distinct_schedules": len(sched),
         "distinct_states": len(states),
@@ -382,6 +383,9 @@ def run_check(prop, args, wdir):
         return 2
     if runs == 0:
         log("no runs executed (exit 2)")
+        return 2
+    if selftest_died:
+        log("determinism self-test process died but exploration found no crash (exit 2)")
         return 2
     return 0
 
